@@ -6,7 +6,7 @@ from .common import Run, corpus_cases, generic_replay, parse_list
 PROP = "C17"
 MODULE = "PLS.Props.C17"
 THEOREMS = ["PLS.C17_scan_exact", "PLS.C17_never", "PLS.C17_always", "PLS.C17_module_names_never",
-            "PLS.C17_rebinding_uses_last_line", "PLS.C17_visited_forms"]
+            "PLS.C17_bound_earlier_never", "PLS.C17_visited_forms"]
 RULE = ("product of function shapes (no/one/many parameters, defaults, annotations, return annotation, multi-line "
         "signatures with and without trailing comma, methods, async, decorators, a following function) and body forms "
         "(26: call target/argument, attribute base, operands, subscripts, collection elements, return/assert/if/for/"
